@@ -189,6 +189,13 @@ def nocache(x, context=None):
     return x
 
 
+def recache(x, context=None):
+    """asks for caching explicitly; what an earlier step switched off stays off for everything downstream"""
+    _log("recache")
+    context.enable_cache()
+    return x
+
+
 def ctxmut(x, name="mlist", context=None):
     """mutates, in place, the value of a state variable as seen through the context (has no visible effect on the
     result: the result's variables come from the command's own state copy)"""
@@ -284,6 +291,12 @@ def vol(x):
     return x
 
 
+def nonvol(x):
+    """registered with an explicit volatile=False: says nothing about its input, which may well be volatile"""
+    _log("nonvol")
+    return x
+
+
 # ---- in-place mutators -----------------------------------------------------------------
 
 def push(x, v="p"):
@@ -350,11 +363,11 @@ def after3(x):
 
 
 FIRST = [one, lit, num, flt, mk, firstcat]
-DATA = [add, mulf, flagged, pair, none_default, optint, optfb, unann, cat, ident, withctx, sub, subin, nocache, ctxmut, boom, needs,
+DATA = [add, mulf, flagged, pair, none_default, optint, optfb, unann, cat, ident, withctx, sub, subin, nocache, recache, ctxmut, boom, needs,
         push, setkey, dfcol, deepmut, after1, after2, after3]
 STATE = [getvar, tag, mutvar]
 ATTRS = {"attr_up": dict(ABC="abc"), "attr_low": dict(abc="x"), "vol": dict(volatile=True),
-         "attr_camel": dict(contextMenu="m", sourceURL="u", Xy="kept")}
+         "attr_camel": dict(contextMenu="m", sourceURL="u", Xy="kept"), "nonvol": dict(volatile=False)}
 
 
 _basic = []
@@ -401,7 +414,7 @@ def table():
         t["root"][f.__name__] = (f, "first", {})
     for f in DATA:
         t["root"][f.__name__] = (f, "data", {})
-    for f in (attr_up, attr_low, attr_camel, vol):
+    for f in (attr_up, attr_low, attr_camel, vol, nonvol):
         t["root"][f.__name__] = (f, "data", dict(ATTRS[f.__name__]))
     for f in STATE:
         t["root"][f.__name__] = (f, "state", {})
